@@ -57,6 +57,37 @@ def bytestr_edits(src, m, a, b):
         res.append((st, en, rep))
     return res
 
+def strlit_edits(src, m, a, b, skip_spans):
+    """rule R31 (functions marked @strbytes): the plain string literals of the body become byte slices with exactly the
+    literal's UTF-8 bytes (decoded from the source text): `"x".to_string()` -> str_lit(bs(&[..])), a literal match
+    pattern `"x" =>` -> a guard comparing bytes, any other literal -> bs(&[..]).  Literals inside macro invocations
+    (log macros, panic!) and inside rewritten format! calls are left alone."""
+    res = []
+    # spans of macro invocations name!( .. ) / name![ .. ] / name!{ .. }
+    mac = []
+    for mo in re.finditer(r'[A-Za-z_][A-Za-z0-9_]*!\s*[\(\[\{]', m[a:b]):
+        po = a + mo.end() - 1
+        mac.append((a + mo.start(), rustscan.match_close(m, po)))
+    for mo in re.finditer(r'(?<![A-Za-z0-9_])(b?)"[^"]*"', m[a:b]):
+        st, en = a + mo.start(), a + mo.end()
+        if mo.group(1):
+            continue   # byte-string literal: rule R20
+        if any(x <= st < y for x, y in mac) or any(x <= st < y for x, y in skip_spans):
+            continue
+        data = decode_rust_str(src[st + 1:en - 1])
+        arr = 'crate::shim::bs(&[' + ', '.join('%du8' % x for x in data) + '])'
+        tail = m[en:en + 40]
+        mt = re.match(r'\.to_string\(\)', tail)
+        if mt:
+            rep = 'crate::shim::str_lit(' + arr + ')'; en2 = en + mt.end()
+        elif re.match(r'\s*=>', tail):
+            rep = 'r31_m if crate::shim::str_is(r31_m, ' + arr + ')'; en2 = en
+        else:
+            rep = arr; en2 = en
+        rep += '\n' * src[st:en2].count('\n')
+        res.append((st, en2, rep))
+    return res
+
 def decode_rust_str(body):
     """decode the body of a normal Rust string literal to bytes (UTF-8)"""
     out = bytearray(); i = 0
@@ -520,6 +551,10 @@ class Unit:
             self.report['rewrites'].append({'rule': 'R8', 'file': repo_file, 'line': line(st_), 'before': src[st_:en_][:60], 'after': rep_[:80]})
             self.fmt_pieces = getattr(self, 'fmt_pieces', {})
             self.fmt_pieces.setdefault(disp, []).append(pieces_)
+        if c and getattr(c, 'strbytes', False):
+            for st_, en_, rep_ in strlit_edits(src, m, bo, item.end, fmt_spans):
+                edits.append((st_, en_ - st_, [(rep_, ('repo', repo_file, line(st_)))]))
+                self.report['rewrites'].append({'rule': 'R31', 'file': repo_file, 'line': line(st_), 'before': src[st_:en_][:40], 'after': rep_[:80]})
         for st_, en_, rep_ in bytestr_edits(src, m, bo, item.end):
             if any(a_ <= st_ < b_ for a_, b_ in fmt_spans): continue
             edits.append((st_, en_ - st_, [(rep_, ('repo', repo_file, line(st_)))]))
